@@ -24,7 +24,7 @@ RULE = (
 )
 ASSUMPTIONS = [
     "ground truth is supplied by the generator; matching uses the oracle's own periodic metric",
-    "dyadic intensity maps a + b*profile with a in [-4,12], b in {1/4,1,8}",
+    "dyadic intensity maps a + b*profile with a in [-4,12], b in {2^-13, 2^-10, 1/4, 1, 8, 1024}",
     "'automatic levels without fitting' is not claimed by the statement and not asserted",
     "numeric thresholds other than the midpoint (0.3, 0.7 of the range) are asserted with supplied levels only; with "
     "fitted levels they are measured but not judged (an arbitrary number is not a threshold rule)",
@@ -53,7 +53,9 @@ def _levels(rng):
     if rng.random() < 0.45:
         return 0.0, 1.0
     a = float(rng.integers(-32, 97)) / 8
-    b = float(rng.choice([0.25, 1.0, 8.0]))
+    b = float(rng.choice([0.25, 1.0, 8.0, 0.25, 1.0, 8.0, 2.0 ** -10, 2.0 ** -13, 1024.0]))  # contrast of the image
+    if b < 0.01:
+        a = float(rng.integers(-4, 9)) / 8  # keep |a|/b moderate: a + b*profile has to resolve the profile
     return a, b
 
 
@@ -148,6 +150,15 @@ def _gen_once(rng, kind, tier):
         w = float(rng.uniform(1.0, 2.0) * hr)
         n = int((R + 4 * w) / hr + rng.integers(4, 16))
         spec = {"family": fam, "radius": hr * n, "shape": [n]}
+        if rng.random() < 0.35:
+            # annular / shell-shaped grid: the inner radius is not 0 (the centred droplet covers the hole)
+            r_in = float(np.round(rng.uniform(0.1, 0.7) * R, 3))
+            if refine_args.get("adjust_values"):
+                # fitted levels need the inner plateau on the grid (otherwise the inside level is not
+                # determined by the image): keep the hole at least four widths inside the interface
+                r_in = float(np.round(rng.uniform(0.1, 1.0) * max(0.0, R - 4 * w), 3))
+            if r_in >= 0.5 * hr:
+                spec["radius"] = [r_in, r_in + hr * n]
         dim = 2 if fam == "polar" else 3
         return {"grid": spec, "droplets": [{"pos": [0.0] * dim, "radius": R, "width": w}],
                 "levels": [a, b], "threshold": thr, "refine_args": refine_args}
@@ -283,10 +294,31 @@ def run(case, rec):
                   f"{list(map(float, f.position))} R={f.radius} w={w_f} (relative error {err}); {label}")
 
 
+def sentinels(rec):
+    """Regression cases for the repaired finding 'contrast-dependent-accuracy' (no suppression)."""
+    g2 = {"family": "cart", "bounds": [[0.0, 32.0], [0.0, 32.0]], "shape": [32, 32], "periodic": [True, False]}
+    one = [{"pos": [16.3, 15.1], "radius": 6.2, "width": 1.4}]
+    cases = [
+        {"grid": g2, "droplets": one, "levels": [0.5, 1e-3], "threshold": "extrema", "refine_args": {"vmin": 0.5, "vmax": 0.501}},
+        {"grid": g2, "droplets": one, "levels": [0.5, 1e-3], "threshold": "extrema",
+         "refine_args": {"vmin": None, "vmax": None, "adjust_values": True}},
+        # the witness that exposed it: low contrast, weakly resolved plateau, automatic start + fitted levels
+        {"grid": {"family": "sph", "radius": 7.588799999999999, "shape": [18]},
+         "droplets": [{"pos": [0.0, 0.0, 0.0], "radius": 1.46517631945419, "width": 0.5993918417306248}],
+         "levels": [0.5, 0.25], "threshold": "extrema", "refine_args": {"vmin": None, "vmax": None, "adjust_values": True}},
+    ]
+    for c in cases:
+        c["kind"] = "sentinel"
+        with rec.case("sentinel", c):
+            run(c, rec)
+
+
 def run_shard(spec, rec):
     from droplets import image_analysis as ia
 
     rec.watch(ia.locate_droplets, ia.refine_droplet, ia.threshold_otsu)
+    if spec["kind"] == "cart2" and spec["start"] == 0:
+        sentinels(rec)
     common.run_generated(spec, rec, gen, run, ID)
 
 
